@@ -23,17 +23,42 @@ fn max_chunk_data_is_the_largest_fit() {
     }
 }
 
-/// `body::calculate_max_input` against its closed form (C18) for every output length below 2^32 (BOUNDED: the full
-/// 64-bit domain also verifies but takes 23 minutes of SAT time for the 64-bit division; 4 GiB buffers cover every
-/// multiple-of-chunk boundary effect, which repeat with period 10248)
+/// C18 on the real `body::calculate_max_input`, independent of any closed form: for every output length n < 2^32 the
+/// advertised maximum is at most n and does not shrink when one more byte of output is offered (BOUNDED: 32-bit domain;
+/// the 64-bit division makes the full domain take 23 minutes of SAT time)
 #[kani::proof]
-fn calculate_max_input_closed_form() {
+fn calculate_max_input_le_n_and_monotone() {
     let n: usize = kani::any();
     kani::assume(n < (1usize << 32));
     let r = super::calculate_max_input(n);
-    let full = n / 10248;
-    let rest = n % 10248;
-    let tail = if rest <= 8 { 0 } else { rest - 8 };
-    assert!(r == full * 10240 + tail);
     assert!(r <= n);
+    assert!(r <= super::calculate_max_input(n + 1));
+}
+
+/// C18 "a write of the advertised maximum is consumed whole", on the real `calculate_max_input` and `max_chunk_data`: the
+/// greedy chunk writer (largest chunk that fits, at most 10240 bytes of data) consumes all of it.  BOUNDED: n < 32768
+/// (at most four chunks, unwind 6; longer buffers are covered by the twin's sizes up to 2561 chunks)
+#[kani::proof]
+#[kani::unwind(20)]
+fn calculate_max_input_is_consumed_by_the_greedy_writer() {
+    let n: usize = kani::any();
+    kani::assume(n < 32768);
+    let advertised = super::calculate_max_input(n);
+    let mut left = advertised;
+    let mut room = n;
+    let mut rounds = 0;
+    while left > 0 && rounds < 5 {
+        let fit = super::max_chunk_data(room);
+        let take = if left < 10240 { left } else { 10240 };
+        let take = if take < fit { take } else { fit };
+        if take == 0 {
+            break;
+        }
+        // independent digit count (bit length / 4, rounded up)
+        let digits = (usize::BITS as usize - take.leading_zeros() as usize + 3) / 4;
+        room -= take + digits + 4;
+        left -= take;
+        rounds += 1;
+    }
+    assert!(left == 0);
 }
